@@ -201,9 +201,15 @@ class Builder:
         return mk(self.cs[ab[0]:ab[1]])
 
     # ---- blocks ----------------------------------------------------------------
-    def entry(self, nfields, kl=1, vl=2, wl=1, trailing=False):
+    def hws(self, n):
+        """blanks/tabs between '@type' and '{' (grammar: hws)"""
+        if n:
+            self.hole("H", n, " \t")
+
+    def entry(self, nfields, kl=1, vl=2, wl=1, trailing=False, hw=0):
         self.lit("@")
         t = self.hole("T", 2, "aA")
+        self.hws(hw)
         self.lit("{")
         w = self.hole("W", wl, W_SIGMA)
         k = self.hole("K", kl, K_SIGMA)
@@ -225,12 +231,13 @@ class Builder:
             self.lit("}")
         self.expect.append(("Entry", t, k, fields))
 
-    def string(self, kl=1, vl=2, wl=1):
+    def string(self, kl=1, vl=2, wl=1, hw=0):
         self.lit("@")
         self.hole("S", 0, "")
         st = len(self.cs)
         for ch in "string":
             self.cs.append(self.eng.sym_char(f"t{len(self.cs)}", ch + ch.upper()))
+        self.hws(hw)
         self.lit("{")
         self.hole("W", wl, W_SIGMA)
         k = self.hole("K", kl, K_SIGMA)
@@ -240,14 +247,18 @@ class Builder:
         self.lit("}")
         self.expect.append(("String", k, v))
 
-    def preamble(self, bl=2):
-        self.lit("@preamble{")
+    def preamble(self, bl=2, hw=0):
+        self.lit("@preamble")
+        self.hws(hw)
+        self.lit("{")
         b = self.hole("B", bl, V_SIGMA)
         self.lit("}")
         self.expect.append(("Preamble", b))
 
-    def comment(self, bl=2):
-        self.lit("@Comment{")
+    def comment(self, bl=2, hw=0):
+        self.lit("@Comment")
+        self.hws(hw)
+        self.lit("{")
         b = self.hole("BC", bl, V_SIGMA)
         self.lit("}")
         self.expect.append(("ExplicitComment", b))
